@@ -416,6 +416,13 @@ def r1_buffers(ck, repo, nf):
                 if a in transformed:
                     continue  # decided (or declared undecidable) with the transformation
                 ck.need(a in init_vals, f"{cq}: `{a}` rebuilt in __setstate__ but never set in __init__")
+                if not _is_dynamic_class(init_vals[a][0]) and not _is_dynamic_class(v):
+                    # a derived value (cache) that is dropped from the pickled state and recomputed from the restored attributes: whether
+                    # the recomputed value equals the one at save time is a question about the class's invariants, not decided here
+                    if ast.unparse(_unwrap_iter(v)) == ast.unparse(_unwrap_iter(init_vals[a][0])):
+                        ck.ob("R1-pickling-symmetry", cq, f"rebuilt:{a}", restored_at is not None and i > restored_at, f"self.{a} = {short(v, 60)} as in __init__", "" if restored_at is not None and i > restored_at else "the attribute is rebuilt from self.* before the pickled attributes are restored", loc(omi, x))
+                        continue
+                    raise AnalysisError(f"{cq}: `{a}` is dropped from the pickled state and recomputed as `{short(v, 50)}` (a derived value; __init__ sets `{short(init_vals[a][0], 30)}`): equality with the saved value is not decided")
                 got = nf.poly(_unwrap_iter(v), Scope(None, omi, {}, cq), None).canon()
                 want = nf.poly(_unwrap_iter(init_vals[a][0]), Scope(None, init_vals[a][1], {}, cq), None).canon()
                 okv = got == want
@@ -546,7 +553,7 @@ def r3_checkpoints(ck, repo, nf):
         saves = _calls(cfg, lambda c: isinstance(c.func, ast.Attribute) and c.func.attr == "save" and dotted(c.func.value) == "self.checkpointer")
         ck.need(len(saves) == 1, f"{site}: expected one self.checkpointer.save call")
         n, c = saves[0]
-        pps = [p_ for p_ in positional_params(fn) if p_ != "self"]
+        pps = [p_ for p_ in param_names(fn) if p_ != "self"]
         kind = _state_kind(cfg, n.id, c.args[1], set(pps)) if len(c.args) > 1 else ("unknown", "")
         if kind[0] == "unknown":
             raise AnalysisError(f"{site}: provenance of the saved object `{kind[1]}` not recognised")
